@@ -5,8 +5,11 @@ package main
 import (
 	"fmt"
 	"go/ast"
+	"go/constant"
 	"go/token"
 	"go/types"
+	"math/big"
+	"strings"
 
 	"golang.org/x/tools/go/ssa"
 )
@@ -91,6 +94,7 @@ func (u *Unit) enterLoop(fr *Frame, li *loopInfo, st *State) *State {
 	for _, inv := range invs {
 		u.assume(h.guard, u.evalClause(fr, h, inv, li))
 	}
+	u.probe(fmt.Sprintf("L%d", li.ordinal), h)
 	lc := &loopCtx{header: h.clone()}
 	if ds := u.loopClauses(fr, li, "decreases"); len(ds) > 0 {
 		lc.variant = u.evalClauseTerm(fr, h, ds[0], li)
@@ -183,6 +187,9 @@ func (u *Unit) callWith(fr *Frame, st *State, c *ssa.CallCommon, fv Val, args []
 			if ext := u.eng.externs[name]; ext != nil {
 				con = ext
 			}
+		}
+		if v, ok := u.mathBuiltin(name, c, args); ok {
+			return v
 		}
 		if u.m.specMode {
 			if v, ok := u.quantCall(fr, st, name, args); ok {
@@ -369,30 +376,42 @@ func (u *Unit) appendOp(fr *Frame, st *State, c *ssa.CallCommon, args []Val, pos
 	ix := m.ixSort()
 	es := m.sortOf(et)
 
-	// contents after the append, as seen from the destination start `base`
+	constLen := int64(-1)
+	if v, ok := m.constVal(srcLen); ok && v.IsInt64() && v.Int64() <= 8 {
+		constLen = v.Int64()
+	}
+	// writeNew stores the appended elements at base+n0.. into a
+	writeNew := func(a *Term, base *Term) *Term {
+		for j := int64(0); j < constLen; j++ {
+			a = tb.Store(a, m.IxAdd(m.IxAdd(base, n0), m.IxConst(j)), tb.Select(srcArr, m.IxAdd(srcOff, m.IxConst(j))))
+		}
+		return a
+	}
+	// contents after the append, as seen from the destination start `base`;
+	// fromOff == nil: in place (other indices keep their old value);
+	// otherwise the old elements are copied from from[fromOff..] to a[base..].
 	mkArr := func(hint string, base *Term, from *Term, fromOff *Term) *Term {
-		// constant small source length: unroll stores
-		if v, ok := m.constVal(srcLen); ok && v.IsInt64() && v.Int64() <= 8 && from == oldArr {
-			a := from
-			for j := int64(0); j < v.Int64(); j++ {
-				a = tb.Store(a, m.IxAdd(m.IxAdd(base, n0), m.IxConst(j)), tb.Select(srcArr, m.IxAdd(srcOff, m.IxConst(j))))
-			}
-			return a
+		if constLen >= 0 && fromOff == nil {
+			return writeNew(from, base)
 		}
 		a := tb.Fresh(hint, SArr(ix, es))
 		j := tb.BoundVar("j", ix)
+		inOld := tb.And(m.IxLe(base, j), m.IxLt(j, m.IxAdd(base, n0)))
+		if constLen >= 0 {
+			// copied prefix by quantifier, new elements by explicit stores
+			u.assume(st.guard, tb.Forall([]*Term{j}, tb.Implies(inOld, tb.Eq(tb.Select(a, j), tb.Select(from, m.IxAdd(fromOff, m.IxSub(j, base)))))))
+			return writeNew(a, base)
+		}
 		inNew := tb.And(m.IxLe(m.IxAdd(base, n0), j), m.IxLt(j, m.IxAdd(base, n1)))
 		newVal := tb.Select(srcArr, m.IxAdd(srcOff, m.IxSub(j, m.IxAdd(base, n0))))
 		var oldVal *Term
 		if fromOff == nil {
 			oldVal = tb.Select(from, j)
 		} else {
-			// copied prefix: a[base+k] = from[fromOff+k]
 			oldVal = tb.Select(from, m.IxAdd(fromOff, m.IxSub(j, base)))
 		}
 		body := tb.Eq(tb.Select(a, j), tb.Ite(inNew, newVal, oldVal))
 		if fromOff != nil {
-			inOld := tb.And(m.IxLe(base, j), m.IxLt(j, m.IxAdd(base, n0)))
 			body = tb.Implies(tb.Or(inNew, inOld), body)
 		}
 		u.assume(st.guard, tb.Forall([]*Term{j}, body))
@@ -749,4 +768,39 @@ func (u *Unit) contractMods(li *loopInfo, con *Contract) {
 			}
 		}
 	}
+}
+
+// mathBuiltin: ghost helpers with a fixed mathematical meaning (int theory).
+//   bigc("digits")   an integer constant too large for Go's types
+//   mathWrap64(x)    x mod 2^64 as a uint64
+func (u *Unit) mathBuiltin(name string, c *ssa.CallCommon, args []Val) (Val, bool) {
+	switch {
+	case strings.HasSuffix(name, ".bigc"):
+		k, ok := c.Args[0].(*ssa.Const)
+		if !ok {
+			panic(u.errf("bigc needs a string literal"))
+		}
+		return u.bigConst(constant.StringVal(k.Value)), true
+	case strings.HasSuffix(name, ".mathWrap64"):
+		return u.mathWrap64(args[0].(*Term)), true
+	}
+	return nil, false
+}
+
+func (u *Unit) bigConst(s string) *Term {
+	if u.m.mode != ModeInt {
+		panic(u.errf("bigc is only available in theory int"))
+	}
+	v, ok := new(big.Int).SetString(s, 10)
+	if !ok {
+		panic(u.errf("bigc: bad literal %q", s))
+	}
+	return u.m.tb.IntBig(v)
+}
+
+func (u *Unit) mathWrap64(x *Term) *Term {
+	if u.m.mode != ModeInt {
+		panic(u.errf("mathWrap64 is only available in theory int"))
+	}
+	return u.m.tb.App("mod", SInt, x, u.m.tb.IntBig(pow2(64)))
 }
